@@ -41,5 +41,5 @@ Step(A) == phase = 0 /\ phase' = 1 /\ A
 Init == vec = <<>> /\ phase = 0
 Next == Step(NextBounds \/ NextRows \/ NextSense \/ NextNames \/ NextFaults)
 NextR == Step(NextRandom)
-Emit == phase = 1 => PrintT(<<"VEC", ToJson(vec)>>)
+Emit == phase = 1 => PrintT("VEC " \o ToJson(vec))
 =============================================================================
